@@ -336,6 +336,21 @@ func cmdCheck(args []string) int {
 		}
 		violate(o.Name, reason, string(body), reproduced)
 	}
+	// bounded stand-ins registered for this property (reported apart from the proof obligations)
+	var boundedResults []boundedResult
+	for _, ent := range loadBounded() {
+		if !hasProp(ent.Props, prop) {
+			continue
+		}
+		br := runBounded(ent, tier)
+		boundedResults = append(boundedResults, br)
+		if br.Status != "ok" {
+			body, _ := json.MarshalIndent(map[string]interface{}{"obligation": "bounded." + ent.ID, "kind": "bounded", "what": ent.What, "bound": br.Bound,
+				"status": br.Status, "failing_input": br.Detail, "reproduced_on_real_code": br.Status == "violated",
+				"note": "bounded stand-in: the real function was run on the failing input; this line is its output"}, "", " ")
+			violate("bounded."+ent.ID, "bounded-check-"+br.Status, string(body), br.Status == "violated")
+		}
+	}
 	// vacuity: expected obligations must still be generated
 	missing := 0
 	for _, name := range expected[prop] {
@@ -346,7 +361,7 @@ func cmdCheck(args []string) int {
 			violate(name, "obligation-vanished", string(body), false)
 		}
 	}
-	if total == 0 && violations == 0 {
+	if total == 0 && violations == 0 && len(boundedResults) == 0 {
 		body, _ := json.MarshalIndent(map[string]interface{}{"obligation": "none", "reason": "no-obligations"}, "", " ")
 		violate("none", "no-obligations", string(body), false)
 	}
@@ -383,7 +398,8 @@ func cmdCheck(args []string) int {
 		"known_findings":           knownHit,
 		"known_finding_obligations": knownObls,
 		"not_decided":              meta.NotDecided,
-		"bounded_checks":           meta.Bounded,
+		"bounded_checks":           boundedResults,
+		"bounded_notes":            meta.Bounded,
 		"abstraction_notes":        notes,
 		"assumed_contracts_used":   trusted,
 		"expected_obligations":     len(expected[prop]),
